@@ -24,6 +24,7 @@ import EaselModel.Msafile.A2mReadDomain
 import EaselModel.Msafile.AfaReadDomain
 import EaselModel.Msafile.ClustalReadDomain
 import EaselModel.Msafile.PsiblastReadDomain
+import EaselModel.Msafile.PhylipReadDomain
 /-! # C03 — writing an alignment and reading it back preserves it: property theorems
 
 Full statement (properties.jsonl): for every well-formed alignment, writing it in any of the ten formats and reading the
@@ -340,6 +341,39 @@ theorem stockholm_write_accepted (pfam : Bool) (m : Msa) (h : StoTextWritable m)
   refine ⟨⟨_, by rw [hr], hg⟩, ?_⟩
   rw [hr]
   simp [stockholmRead, runLines, stoFinish]
+
+/-- **annotated Stockholm/Pfam output is accepted**, general form: whatever `StoAnn` admits (comments, `#=GF`, `#=GC`, `#=GR`, `#=GS`
+    `AC DE` and unparsed), the reader returns a well-formed alignment, holds exactly one alignment (nothing follows `//`: the
+    next read is eslEOF) -/
+theorem stockholm_ann_write_accepted_gen (pfam : Bool) (abc : Option Abc) (cfg : Cfg) (enc : UInt8 → UInt8) (txt : Nat → Bytes) (m : Msa)
+    (hv : cfg.valid) (hni : cfg.inmap.noIgnore = true) (h : StoWritable abc cfg enc txt m) :
+    (∃ m', (stockholmRead cfg (splitLines (stockholmWrite pfam abc m))).1 = .ok m' ∧ m'.wellFormed = true) ∧
+    (stockholmRead cfg (stockholmRead cfg (splitLines (stockholmWrite pfam abc m))).2).1 = .eof := by
+  have hr := stoRead_write pfam abc cfg enc txt m h
+  generalize splitLines (stockholmWrite pfam abc m) = L at hr ⊢
+  have hg : Good (stockholmRead cfg L).1 := stockholmRead_good _ hv hni L
+  rw [hr] at hg
+  refine ⟨⟨_, by rw [hr], hg⟩, ?_⟩
+  rw [hr]
+  simp [stockholmRead, runLines, stoFinish]
+
+/-- … text mode -/
+theorem stockholm_ann_write_accepted (pfam : Bool) (m : Msa) (h : StoTextWritable m) :
+    (∃ m', (stockholmRead (stockholmCfg none) (splitLines (stockholmWrite pfam none m))).1 = .ok m' ∧ m'.wellFormed = true) ∧
+    (stockholmRead (stockholmCfg none) (stockholmRead (stockholmCfg none) (splitLines (stockholmWrite pfam none m))).2).1 = .eof :=
+  stockholm_ann_write_accepted_gen pfam none _ id _ m ⟨by decide +kernel, by decide +kernel⟩ (by decide +kernel)
+    (stoTextWritable_writable m h)
+
+/-- … digital mode (amino, DNA, RNA) -/
+theorem stockholm_ann_write_accepted_digital (pfam : Bool) (a : Abc) (ha : a = abcAmino ∨ a = abcDna ∨ a = abcRna) (m : Msa)
+    (h : StoDigitalWritable a m) :
+    (∃ m', (stockholmRead (stockholmCfg (some a)) (splitLines (stockholmWrite pfam (some a) m))).1 = .ok m' ∧ m'.wellFormed = true) ∧
+    (stockholmRead (stockholmCfg (some a)) (stockholmRead (stockholmCfg (some a)) (splitLines (stockholmWrite pfam (some a) m))).2).1
+      = .eof := by
+  have hv : (stockholmCfg (some a)).valid ∧ (stockholmCfg (some a)).inmap.noIgnore = true := by
+    rcases ha with e | e | e <;> subst e <;> exact ⟨⟨by decide +kernel, by decide +kernel⟩, by decide +kernel⟩
+  exact stockholm_ann_write_accepted_gen pfam (some a) _ (stoEnc a) _ m hv.1 hv.2
+    (stoDigitalWritable_writable a (stoDigSymOk_of a ha) m h)
 
 /-- what Stockholm/Pfam preserve of such an alignment: names, width and the aligned rows, exactly -/
 theorem stockholm_preserves_names_rows (m : Msa) (h : StoTextWritable m) :
@@ -811,6 +845,11 @@ example : ¬ gsOrderOk exStoGsBad := by unfold gsOrderOk; decide +kernel
 example : stockholmWrite false none (stoProject (stockholmCfg none) { exStoAnn with cutoff := [] })
     = stockholmWrite false none { exStoAnn with cutoff := [] } := by decide +kernel
 example : stockholmWrite false none (stoProject (stockholmCfg none) exStoAnn) ≠ stockholmWrite false none exStoAnn := by decide +kernel
+
+/-- non-vacuity of `stockholm_ann_write_accepted`: the example with `#=GS AC DE OS DR` (text), the DNA example (digital) -/
+example := stockholm_ann_write_accepted false exStoGs exStoGs_writable
+example := stockholm_ann_write_accepted false exStoGr exStoGr_writable
+example := stockholm_ann_write_accepted_digital true abcDna (Or.inr (Or.inl rfl)) exStoDna exStoDna_writable
 
 /-! ## ===== STOCKHOLM/PFAM — end ===== -/
 
@@ -2205,6 +2244,106 @@ example : afaRead (afaCfg (some abcDna)) (splitLines (afaWrite (some abcDna) exA
     = (.ok (afaProject (afaCfg (some abcDna)) exAfaDnaInMsa), []) :=
   afa_reformat_stable_digital_of_lines abcDna (Or.inr (Or.inl rfl)) (splitLines exAfaDnaIn) exAfaDnaInMsa [] (by decide +kernel)
     (by decide +kernel)
+
+/-! ### PHYLIP (interleaved and sequential, strict name width 10)
+
+`esl_msafile_phylip_Read` guarantees `n1`, `alen1` (the header's `alen` ≥ 1 and the final length equals it), names made of
+≤ 10 graphic characters (`phylip_rectify_input_name`: outer blanks stripped, inner blanks → `_`), rows of `alen` symbols /
+well-formed digital rows, and `nseq`, `alen` ≤ 2^31-1 (`strtoi32_le`: `esl_mem_strtoi32` rejects larger values).  Side conditions (decidable predicates on the alignment read):
+* `phyNamesNeB`: no EMPTY name (a name field of ten blanks is stored as ""); outside the domain of `phylip_roundtrip_*`
+  (`phyNameOk` asks for a non-empty name) but NOT a defect: `exPhyEmptyIn` reformats faithfully on the model;
+* text mode, `phyRowsSymB`: every residue is an upper-case letter, `-`, `*` or `?`.  The reader stores lower-case letters and `.`
+  as they are, and the WRITER converts them (`phylip_rectify_output_seq_text`: upper case, `.` → `-`): by design the re-read
+  alignment then differs from the one read (`exPhyLowerIn`: `acgt` comes back `ACGT`). -/
+
+theorem phylipCfg_valid_of (a : Abc) (ha : a = abcAmino ∨ a = abcDna ∨ a = abcRna) : (phylipCfg (some a)).valid := by
+  rcases ha with h | h | h <;> subst h
+  · exact ⟨by decide +kernel, by decide +kernel⟩
+  · exact ⟨by decide +kernel, by decide +kernel⟩
+  · exact ⟨by decide +kernel, by decide +kernel⟩
+
+theorem phylip_read_in_domain_digital (sequential : Bool) (a : Abc) (ha : a = abcAmino ∨ a = abcDna ∨ a = abcRna)
+    (lines : List Bytes) (m : Msa) (rest : List Bytes) (h : phylipRead sequential (phylipCfg (some a)) lines = (.ok m, rest))
+    (hne : phyNamesNeB m = true) : PhylipDigitalWritable a m :=
+  phylipRead_domain_digital sequential a (phylipCfg_valid_of a ha) lines m rest h hne
+
+theorem phylip_read_in_domain_text (sequential : Bool) (lines : List Bytes) (m : Msa) (rest : List Bytes)
+    (h : phylipRead sequential (phylipCfg none) lines = (.ok m, rest)) (hne : phyNamesNeB m = true)
+    (hsym : phyRowsSymB m = true) : PhylipTextWritable m :=
+  phylipRead_domain_text sequential lines m rest h hne hsym
+
+/-- **PHYLIP reformat stability, digital mode**: read as interleaved or sequential (`sequential`), written interleaved -/
+theorem phylip_reformat_stable_digital (sequential : Bool) (a : Abc) (ha : a = abcAmino ∨ a = abcDna ∨ a = abcRna)
+    (lines : List Bytes) (m : Msa) (rest : List Bytes) (h : phylipRead sequential (phylipCfg (some a)) lines = (.ok m, rest))
+    (hne : phyNamesNeB m = true) :
+    phylipRead false (phylipCfg (some a)) (splitLines (phylipWrite false (some a) m)) = (.ok (phylipProject (phylipCfg (some a)) m), []) :=
+  phylip_roundtrip_digital a ha m (phylip_read_in_domain_digital sequential a ha lines m rest h hne)
+
+/-- … written sequential -/
+theorem phylips_reformat_stable_digital (sequential : Bool) (a : Abc) (ha : a = abcAmino ∨ a = abcDna ∨ a = abcRna)
+    (lines : List Bytes) (m : Msa) (rest : List Bytes) (h : phylipRead sequential (phylipCfg (some a)) lines = (.ok m, rest))
+    (hne : phyNamesNeB m = true) :
+    phylipRead true (phylipCfg (some a)) (splitLines (phylipWrite true (some a) m)) = (.ok (phylipProject (phylipCfg (some a)) m), []) :=
+  phylips_roundtrip_digital a ha m (phylip_read_in_domain_digital sequential a ha lines m rest h hne)
+
+/-- **PHYLIP reformat stability, text mode**, written interleaved -/
+theorem phylip_reformat_stable_text (sequential : Bool) (lines : List Bytes) (m : Msa) (rest : List Bytes)
+    (h : phylipRead sequential (phylipCfg none) lines = (.ok m, rest)) (hne : phyNamesNeB m = true)
+    (hsym : phyRowsSymB m = true) :
+    phylipRead false (phylipCfg none) (splitLines (phylipWrite false none m)) = (.ok (phylipProject (phylipCfg none) m), []) :=
+  phylip_roundtrip_text m (phylip_read_in_domain_text sequential lines m rest h hne hsym)
+
+/-- … written sequential -/
+theorem phylips_reformat_stable_text (sequential : Bool) (lines : List Bytes) (m : Msa) (rest : List Bytes)
+    (h : phylipRead sequential (phylipCfg none) lines = (.ok m, rest)) (hne : phyNamesNeB m = true)
+    (hsym : phyRowsSymB m = true) :
+    phylipRead true (phylipCfg none) (splitLines (phylipWrite true none m)) = (.ok (phylipProject (phylipCfg none) m), []) :=
+  phylips_roundtrip_text m (phylip_read_in_domain_text sequential lines m rest h hne hsym)
+
+/-- non-vacuity: ` 2 4` / `s1        ACGT` / `s2        A-GT` -/
+def exPhyIn : Bytes :=
+  [32, 50, 32, 52, 10] ++ [115, 49, 32, 32, 32, 32, 32, 32, 32, 32, 65, 67, 71, 84, 10]
+    ++ [115, 50, 32, 32, 32, 32, 32, 32, 32, 32, 65, 45, 71, 84, 10]
+
+def exPhyInMsa : Msa :=
+  { alen := 4, names := [[115, 49], [115, 50]], aseq := [[65, 67, 71, 84], [65, 45, 71, 84]], wgt := [.dflt, .dflt] }
+
+example : phylipRead false (phylipCfg none) (splitLines exPhyIn) = (.ok exPhyInMsa, []) := by decide +kernel
+example : phylipRead true (phylipCfg none) (splitLines exPhyIn) = (.ok exPhyInMsa, []) := by decide +kernel
+example : phyNamesNeB exPhyInMsa = true ∧ phyRowsSymB exPhyInMsa = true := by decide +kernel
+example : PhylipTextWritable exPhyInMsa :=
+  phylip_read_in_domain_text true (splitLines exPhyIn) exPhyInMsa [] (by decide +kernel) (by decide +kernel) (by decide +kernel)
+example : phylipRead false (phylipCfg none) (splitLines (phylipWrite false none exPhyInMsa)) = (.ok exPhyInMsa, []) := by
+  decide +kernel
+
+/-- the reader returns names of ≤ 10 characters: `phylipProject` (names cut to ten) is the identity on the names of an
+    alignment read from a PHYLIP file, so the reformatted alignment has the same names -/
+theorem phylip_reformat_keeps_names (sequential : Bool) (cfg cfg' : Cfg) (lines : List Bytes) (m : Msa) (rest : List Bytes)
+    (h : phylipRead sequential cfg lines = (.ok m, rest)) : (phylipProject cfg' m).names = m.names :=
+  phylipRead_project_names sequential cfg cfg' lines m rest h
+
+example : (phylipProject (phylipCfg none) exPhyInMsa).names = exPhyInMsa.names :=
+  phylip_reformat_keeps_names false (phylipCfg none) (phylipCfg none) (splitLines exPhyIn) exPhyInMsa [] (by decide +kernel)
+
+/-- outside the proved domain, yet stable on the model: a name field of ten blanks is stored as the empty name -/
+def exPhyEmptyIn : Bytes := [49, 32, 52, 10] ++ List.replicate 10 32 ++ [65, 67, 71, 84, 10]
+
+def exPhyEmptyMsa : Msa := { alen := 4, names := [[]], aseq := [[65, 67, 71, 84]], wgt := [.dflt] }
+
+example : phylipRead false (phylipCfg none) (splitLines exPhyEmptyIn) = (.ok exPhyEmptyMsa, []) := by decide +kernel
+example : phyNamesNeB exPhyEmptyMsa = false := by decide +kernel
+example : phylipRead false (phylipCfg none) (splitLines (phylipWrite false none exPhyEmptyMsa)) = (.ok exPhyEmptyMsa, []) := by
+  decide +kernel
+
+/-- `phyRowsSymB` is needed (by design, not a defect): `1 4` / `s1        acgt` is stored lower case and written upper case -/
+def exPhyLowerIn : Bytes := [49, 32, 52, 10] ++ [115, 49, 32, 32, 32, 32, 32, 32, 32, 32, 97, 99, 103, 116, 10]
+
+def exPhyLowerMsa : Msa := { alen := 4, names := [[115, 49]], aseq := [[97, 99, 103, 116]], wgt := [.dflt] }
+
+example : phylipRead false (phylipCfg none) (splitLines exPhyLowerIn) = (.ok exPhyLowerMsa, []) := by decide +kernel
+example : phyRowsSymB exPhyLowerMsa = false := by decide +kernel
+example : phylipRead false (phylipCfg none) (splitLines (phylipWrite false none exPhyLowerMsa))
+    = (.ok { exPhyLowerMsa with aseq := [[65, 67, 71, 84]] }, []) := by decide +kernel
 
 /-! ## ===== READ-DOMAIN — end ===== -/
 
